@@ -166,6 +166,8 @@ def strategy(draw, tier="quick"):
     mode = ["direct", "testcase", "testcase"][draw(st.integers(0, 2))]
     recs = draw(st.lists(record(mode), min_size=1, max_size=4))
     case = {"mode": mode, "records": recs, "filter": draw(st.sampled_from([0, 0, 0, 0, 0, 1, 2, 3, 4, 5]))}
+    # the field signals of different records carry the same NAME (signals created in a loop, as for lanes or ports)
+    case["same_names"] = draw(st.integers(0, 2)) == 0
     low = draw(st.integers(0, 9)) < 6  # most thresholds let most records through
     if mode == "testcase":
         case["level"] = draw(st.sampled_from(TC_THRESHOLDS_LOW if low else TC_THRESHOLDS))
@@ -281,6 +283,8 @@ def make_design(case):
         BB = 1
         LONGER = 2
 
+    same_names = bool(case.get("same_names"))
+
     class Design(Elaboratable):
         def __init__(self):
             self.c = [Signal(name=f"c{i}") for i in range(obs.NC)]
@@ -297,10 +301,10 @@ def make_design(case):
                         if fd["kind"] == "pyconst":
                             row.append(None)
                         elif fd["kind"] == "enum":
-                            row.append(Signal(E3, name=f"{pre}{i}_{j}"))
+                            row.append(Signal(E3, name=f"{pre}{'' if same_names else i}_{j}"))
                         else:
                             shape = signed(fd["w"]) if fd["signed"] else unsigned(fd["w"])
-                            row.append(Signal(shape, name=f"{pre}{i}_{j}"))
+                            row.append(Signal(shape, name=f"{pre}{'' if same_names else i}_{j}"))
                     rows.append(row)
 
         def elaborate(self, platform):
